@@ -119,7 +119,7 @@ class Gen:
         for v in vs:
             c = r.choice([1, 1, 1, -1, 2, -2, 3])
             t = v
-            if depth > 0 and r.random() < 0.12:
+            if depth > 0 and r.random() < 0.18:
                 t = self.ite_num()
             elif depth > 0 and self.uf and "h" in self.funs and r.random() < 0.25:
                 t = tb.uf("h", [self.num_term(0)], S)
@@ -137,7 +137,13 @@ class Gen:
         return tb.app("+", parts)
 
     def ite_num(self):
-        return self.tb.app("ite", [self.atom(0), self.num_term(0), self.num_term(0)])
+        r, tb = self.rng, self.tb
+        if r.random() < 0.45:
+            # nested ite with a value shared between branches (a DAG, not a tree, for the ite elimination)
+            v, w = self.num_term(0), self.num_term(0)
+            inner = tb.app("ite", [self.atom(0)] + ([w, v] if r.random() < 0.5 else [v, w]))
+            return tb.app("ite", [self.atom(0)] + ([v, inner] if r.random() < 0.6 else [inner, v]))
+        return tb.app("ite", [self.atom(0), self.num_term(0), self.num_term(0)])
 
     def u_term(self, depth=2):
         r, tb = self.rng, self.tb
@@ -151,6 +157,10 @@ class Gen:
         if x < 0.8 and "k" in self.funs:
             return tb.uf("k", [self.num_term(0)], "U")
         if x < 0.9:
+            if depth >= 2 and r.random() < 0.5:
+                v, w = self.u_term(0), self.u_term(depth - 2)
+                inner = tb.app("ite", [self.atom(0)] + ([w, v] if r.random() < 0.5 else [v, w]))
+                return tb.app("ite", [self.atom(0)] + ([v, inner] if r.random() < 0.6 else [inner, v]))
             return tb.app("ite", [self.atom(0), self.u_term(depth - 1), self.u_term(depth - 1)])
         return r.choice(self.us)
 
